@@ -420,6 +420,92 @@ def d14_probe(max_requests=1, idle=0.0):
 
 
 
+
+def gthread_queue_probe(threads=1, max_requests=2, nclients=6, delay=0.6):
+    """The REAL ThreadWorker.run() with real sockets: nclients requests arrive at once, more than the pool has threads, and the
+    limit is reached while some of them are still queued in the pool.  Every request the worker has taken (accepted and
+    dispatched) must be answered in full before the worker goes away."""
+    import logging
+    import selectors
+    import gunicorn.config
+    import gunicorn.glogging
+    from gunicorn.workers.gthread import ThreadWorker
+    cfg = gunicorn.config.Config()
+    cfg.set("threads", threads)
+    cfg.set("max_requests", max_requests)
+    cfg.set("graceful_timeout", 6)
+    cfg.set("keepalive", 0)
+    log = gunicorn.glogging.Logger(cfg)
+    log.error_log.handlers = [logging.NullHandler()]
+    log.error_log.propagate = False
+    served = []
+
+    def app(environ, start_response):
+        time.sleep(delay)
+        served.append(environ["PATH_INFO"])
+        start_response("200 OK", [("Content-Length", "2")])
+        return [b"ok"]
+    ls = socket.socket()
+    ls.setsockopt(socket.SOL_SOCKET, socket.SO_REUSEADDR, 1)
+    ls.bind(("127.0.0.1", 0))
+    ls.listen(16)
+    port = ls.getsockname()[1]
+    dispatched = []
+
+    class W(ThreadWorker):
+        def enqueue_req(self, conn):
+            dispatched.append(conn)
+            return super().enqueue_req(conn)
+    w = W(1, os.getppid(), [ls], app, 30, cfg, log)
+    w.wsgi = app
+    w.tpool = w.get_thread_pool()
+    w.poller = selectors.DefaultSelector()
+    w._lock = threading.RLock()
+    clients = []
+    for i in range(nclients):
+        c = socket.create_connection(("127.0.0.1", port))
+        c.sendall(b"GET /q%d HTTP/1.1\r\nHost: x\r\n\r\n" % i)
+        clients.append(c)
+    time.sleep(0.1)
+    t = threading.Thread(target=w.run, daemon=True)
+    t.start()
+    t.join(15)
+    out = {"run_returned": not t.is_alive(), "dispatched": len(dispatched), "nr": w.nr, "served": list(served), "answers": []}
+    if t.is_alive():
+        w.alive = False
+        t.join(3)
+    for c in clients:
+        c.settimeout(2)
+        data = b""
+        try:
+            while True:
+                blk = c.recv(65536)
+                if not blk:
+                    break
+                data += blk
+        except OSError as e:
+            data += b"<" + type(e).__name__.encode() + b">"
+        out["answers"].append(data)
+        c.close()
+    ls.close()
+    try:
+        w.tmp.close()
+    except Exception:
+        pass
+    return out
+
+
+def judge_gthread_queue(res):
+    fails = []
+    full = sum(1 for a in res["answers"] if a.startswith(b"HTTP/1.1 200") and a.endswith(b"ok"))
+    if not res["run_returned"]:
+        fails.append("run() did not return after the limit was reached")
+    if full < res["dispatched"]:
+        bad = [a[:40] for a in res["answers"] if not (a.startswith(b"HTTP/1.1 200") and a.endswith(b"ok"))]
+        fails.append("the worker had taken %d requests (accepted and handed to its pool) when it reached max_requests, but only %d were "
+                     "answered in full; the others received %r" % (res["dispatched"], full, bad[:3]))
+    return fails
+
 def sync_backlog_probe(max_requests, nclients, nlisteners, jitter=0):
     """The REAL SyncWorker.run() (run_for_one / run_for_multiple) with real listeners whose accept queues already hold
     nclients complete requests when the loop starts: the worker must stop taking clients once it has handled its limit,
@@ -573,6 +659,15 @@ def run(ctx):
                           "when the main loop exited (accepted=%d, served=%r, B received %r)" % (res["accepted"], res["served"], res["B"][:40]),
                           {"kind": "d14", "result": {k2: repr(v) for k2, v in res.items()}},
                           key="gthread-idle-conn-dropped-at-recycle")
+    # the real main loop of the thread worker with more simultaneous requests than threads when the limit is reached
+    # (the main loop notices alive == False up to 1 s late - poller.select(1.0) - so the requests must outlast that)
+    for th, mr, nc in ([(1, 2, 6)] if quick else [(1, 2, 6), (2, 2, 9), (1, 1, 5), (2, 3, 10)]):
+        res = gthread_queue_probe(threads=th, max_requests=mr, nclients=nc)
+        ctx.count_case(("gthread-queue", th, mr, nc), True)
+        ctx.hist("gthread_queue_probe", "%d dispatched / %d answered" % (res["dispatched"], sum(1 for a in res["answers"] if a.endswith(b"ok"))))
+        for f in judge_gthread_queue(res)[:2]:
+            ctx.violation("gthread run() with %d simultaneous requests, %d thread(s), max_requests=%d: %s" % (nc, th, mr, f),
+                          {"kind": "gthread-queue", "threads": th, "max_requests": mr, "nclients": nc})
     # the real accept loops of the sync worker with clients already queued on one / several listeners
     combos = [(1, 1), (2, 1), (2, 2), (1, 3), (3, 2)] if quick else [(m, n) for m in (1, 2, 3, 5) for n in (1, 2, 3)]
     for mr, nl in combos:
@@ -629,6 +724,12 @@ def search(ctx):
 
 
 def replay(rep):
+    if rep.get("kind") == "gthread-queue":
+        res = gthread_queue_probe(rep["threads"], rep["max_requests"], rep["nclients"])
+        fs = judge_gthread_queue(res)
+        print({k: v for k, v in res.items() if k != "answers"}, [a[:30] for a in res["answers"]])
+        print("failures:", fs)
+        return 1 if fs else 0
     if rep.get("kind") == "sync-backlog":
         res = sync_backlog_probe(rep["max_requests"], 6, rep["listeners"])
         fs = judge_sync_backlog(res, rep["max_requests"])
